@@ -231,6 +231,7 @@ Qed.
 
 Local Opaque tx_commitment event_commitment receipt_commitment sd_hash gas_prices_hash counts_term commit_root tx_commitment_ped event_commitment_ped.
 
+
 Theorem preimage_injective_0134 : forall b1 b2, block_wf b1 -> block_wf b2 ->
   block_hash_0134 b1 = block_hash_0134 b2 -> committed_0134 b1 = committed_0134 b2.
 Proof.
@@ -325,3 +326,26 @@ Qed.
 (* the Pedersen format never coincides with a Poseidon format *)
 Theorem post07_disjoint : forall b1 b2, block_hash_post07 b1 <> block_hash_0134 b2 /\ block_hash_post07 b1 <> block_hash_0132 b2.
 Proof. intros b1 b2. split; intros H; unfold block_hash_post07, block_hash_0134, block_hash_0132 in H; cbv zeta in H; discriminate H. Qed.
+
+(* ---------- pre-0.7 format (early mainnet / goerli blocks) ---------- *)
+Definition committed_pre07 (b : block) :=
+  let h := b_hdr b in
+  (h_number h, h_state_root h, h_tx_count h, h_parent h, map (tx_proj_ped (ver_ge (h_ver h) (0, 11, 1))) (b_txs b)).
+
+Theorem preimage_injective_pre07 : forall ch b1 b2, block_wf b1 -> block_wf b2 -> sig_rule b1 = sig_rule b2 ->
+  block_hash_pre07 ch b1 = block_hash_pre07 ch b2 -> committed_pre07 b1 = committed_pre07 b2.
+Proof.
+  intros ch b1 b2 W1 W2 V H. unfold sig_rule in V. unfold block_hash_pre07 in H. cbv zeta in H. rewrite V in H.
+  apply TPedN_inj in H. peel H.
+  destruct W1 as (_ & _ & _ & St1 & _), W2 as (_ & _ & _ & St2 & _).
+  apply TC_inj in E. apply TC_inj in E3.
+  apply tx_commitment_ped_injective in E4; auto.
+  unfold committed_pre07. cbv zeta. rewrite V, E, E0, E3, E4, E10. reflexivity.
+Qed.
+
+(* 12 elements against 11: never the post-0.7 hash of any block *)
+Theorem pre07_disjoint : forall ch b1 b2, block_hash_pre07 ch b1 <> block_hash_post07 b2.
+Proof.
+  intros ch b1 b2 H. unfold block_hash_pre07, block_hash_post07 in H. cbv zeta in H.
+  apply TPedN_inj in H. apply (f_equal (@length term)) in H. simpl in H. discriminate H.
+Qed.
